@@ -199,8 +199,13 @@ class CFG:
             entry, ends = f.build(key[0])
             f.copies[key] = entry
             if key[0] == "exc":
+                # the pending exception continues to propagate after the cleanup completed normally
+                rr = self._new("reraise", None, self._cur_stmt, "propagate")
+                rr.raises = key[1]
+                self._connect(ends, rr)
                 for t in self._exc_targets(i - 1, key[1]):
-                    self._connect(ends, t)
+                    if (t, "reraise") not in rr.succ:
+                        rr.succ.append((t, "reraise"))
             else:
                 self._jump(ends, i - 1, key[0])
         finally:
@@ -750,7 +755,7 @@ class CFG:
         parts = []
         for a, b in zip(path, path[1:]):
             lab = next((l for t, l in a.succ if t is b), "")
-            arrow = {"": "->", "T": "-T->", "F": "-F->", "exc": "-raises->"}[lab]
+            arrow = {"": "->", "T": "-T->", "F": "-F->", "exc": "-raises->", "reraise": "-propagates->"}[lab]
             parts.append(f"{a.kind}:{a.label} {arrow}")
         parts.append(f"{path[-1].kind}:{path[-1].label}")
         if len(parts) > limit:
